@@ -46,12 +46,16 @@ def _func(mod, name):
     raise Unsupported("missing function " + name)
 
 
-def _nf(mod, fn):
-    """pin of the path normal form of a whole function"""
+def _nf_tuple(mod, fn, **options):
     try:
-        text = pathnorm_c18.normal_form_text(mod, fn)
+        return pathnorm_c18.Exec(mod, **options).function(fn)
     except pathnorm_c18.Unsupported as e:
         raise Unsupported("normal form of %s: %s" % (fn.name, e))
+
+
+def _nf(mod, fn, **options):
+    """pin of the path normal form of a whole function"""
+    text = pathnorm_c18._fmt(_nf_tuple(mod, fn, **options))
     return "sha256:" + hashlib.sha256(text.encode()).hexdigest()
 
 
@@ -132,7 +136,7 @@ def _effects(nf, depth=0, conds=()):
 
 def _sub(v, pred):
     if isinstance(v, tuple):
-        if pred(v):
+        if v and pred(v):
             yield v
         for x in v:
             for y in _sub(x, pred):
@@ -164,7 +168,7 @@ def _writer_loop_facts(mod, fn):
     joins = [_lit(j[2]) for d, c, a in ws if d == 2
              for j in _sub(a, lambda v: v[:2] == ("M", "join") and v[2][0] == "K")]
     dim = [_lit(a) for d, c, a in ws if d == 2 and a[0] == "K"
-           and any("'univariate'" in at and not pol for at, pol in c)]
+           and any("'univariate'" in at and not pol for at, pol, _a in c)]
     lab = [_lit(a[1][0]) for d, c, a in ws if d == 1 and a[0] == "FSTR" and len(a[1]) == 2
            and a[1][0][0] == "K" and a[1][1][0] == "FMT"]
     _need(joins and dim and lab, "writer: case loop writes not found")
@@ -173,58 +177,112 @@ def _writer_loop_facts(mod, fn):
             "writer_label_sep": _one(lab, "writer: class value separator")}
 
 
+def _str_of(name):
+    return ("M", "lower", ("C", ("S", "str"), (("S", name),), ()), (), ())
+
+
+# what may stand in a header line, as a VALUE (however the code names or computes it)
+HOLE_VALUES = {
+    ("S", "problem_name"): "HName",
+    _str_of("timestamp"): "HTimestamp",
+    _str_of("univariate"): "HUnivariate",
+    _str_of("equal_length"): "HEqualLength",
+    ("S", "series_length"): "HSeriesLength",
+    ("M", "join", ("K", "' '"), (("COMP", "Comp", ("C", ("S", "str"), (("B", 0),), ()),
+                                  ("S", "class_label"), ()),), ()): "HLabels",
+}
+GUARD_ATOMS = {
+    (("S", "equal_length"), True): "GEqualLength",
+    (("CMP", "Gt", ("S", "series_length"), ("K", "0")), True): "GSeriesLengthPos",
+    (("S", "class_label"), True): "GClassLabel",
+    (("S", "class_label"), False): "GNoClassLabel",
+}
+
+
+def _header_parts(v, what):
+    """value of a header write -> list of ('Lit', s) / ('Hole', name); the trailing newline
+    (required) is dropped"""
+    parts = []
+    if v[0] == "K":
+        parts.append(("Lit", _lit(v)))
+    elif v[0] == "FSTR":
+        for x in v[1]:
+            if x[0] == "K":
+                parts.append(("Lit", _lit(x)))
+            else:
+                _need(x[0] == "FMT" and x[2] == -1 and x[3] is None, what + ": formatted value spec")
+                _need(x[1] in HOLE_VALUES, what + ": unknown expression in a header line")
+                parts.append(("Hole", HOLE_VALUES[x[1]]))
+    else:
+        raise Unsupported(what + ": write argument of kind " + v[0])
+    _need(all(not (k == "Lit" and not isinstance(t, str)) for k, t in parts), what + ": literal")
+    _need(parts and parts[-1][0] == "Lit" and parts[-1][1].endswith("\n"),
+          what + ": header write does not end the line")
+    last = parts[-1][1][:-1]
+    parts = parts[:-1] + ([("Lit", last)] if last else [])
+    for k, t in parts:
+        _need(k != "Lit" or ("\n" not in t and '"' not in t), what + ": literal with newline/quote")
+    _need(parts and parts[0][0] == "Lit", what + ": header line does not start with a literal")
+    return parts
+
+
+def _is_header_value(v):
+    first = v if v[0] == "K" else (v[1][0] if v[0] == "FSTR" and v[1] else None)
+    return first is not None and first[0] == "K" and isinstance(_lit(first), str) \
+        and _lit(first).startswith("@")
+
+
 def _writer(fn, frags, mod):
-    frags["nf.write_dataframe_to_tsfile"] = _nf(mod, fn)
+    """header items (guard + parts, in order) and the literals of the case loop, read off the normal
+    form of the whole writer: which `file.write` of a line starting with "@" happens on which paths,
+    in which order, wherever the text of the line is computed"""
+    nf = _nf_tuple(mod, fn)
+    frags["nf.write_dataframe_to_tsfile"] = "sha256:" + hashlib.sha256(
+        pathnorm_c18._fmt(nf).encode()).hexdigest()
+    ok = [p for p in nf if p[2][0] == "return"]
+    _need(ok, "writer: no successful path")
+    seqs = []
+    for conds, effects, _ex, _sets in ok:
+        before, loops = [], 0
+        for e in effects:
+            if e[0] == "FOREACH":
+                loops += 1
+            elif loops == 0 and e[0] == "CALL" and e[1][:2] == ("M", "write") \
+                    and len(e[1][3]) == 1 and _is_header_value(e[1][3][0]):
+                before.append(e[1][3][0])
+            elif loops > 0 and e[0] == "CALL" and e[1][:2] == ("M", "write"):
+                raise Unsupported("writer: a write after the case loop")
+        _need(loops == 1, "writer: exactly one case loop on every successful path")
+        seqs.append((set((c[2], c[1]) for c in conds), before))
+    values = []
+    for _c, before in seqs:
+        for v in before:
+            if v not in values:
+                values.append(v)
     items = []
-    facts = {}
-    seen_loop = False
-    closed = False
-    prelude = []
-    for st in _body(fn):
-        if closed:
-            raise Unsupported("writer: statement after file.close()")
-        if seen_loop:
-            _need(ast.unparse(st) == "file.close()", "writer: statement after the case loop")
-            closed = True
-            continue
-        if isinstance(st, ast.For):
-            seen_loop = True
-            # the literals of the case loop are read off the normal form (wherever the code that
-            # writes them lives): what is joined with what per dimension, what follows a dimension
-            # unless univariate, what precedes the class value
-            facts.update(_writer_loop_facts(mod, fn))
-            continue
-        if not _has_write(st):
-            prelude.append(ast.unparse(st))
-            continue
-        arg = _write_of(st)
-        if arg is not None:
-            items.append(("GAlways", _parts(arg, "writer header")))
-            continue
-        _need(isinstance(st, ast.If), "writer: write inside " + type(st).__name__)
-        test = ast.unparse(st.test)
-        if test == "comment":
-            _need(not items, "writer: comment block is not first")
-            continue
-        guards = {"equal_length": "GEqualLength", "series_length > 0": "GSeriesLengthPos"}
-        if test in guards:
-            _need(len(st.body) == 1 and not st.orelse, "writer: optional header shape")
-            arg = _write_of(st.body[0])
-            _need(arg is not None, "writer: optional header write")
-            items.append((guards[test], _parts(arg, "writer header")))
-            continue
-        if test == "class_label":
-            _need(len(st.body) == 2 and len(st.orelse) == 1, "writer: class label branch shape")
-            _need(ast.unparse(st.body[0]) == "space_separated_class_label = ' '.join((str(label) "
-                  "for label in class_label))", "writer: class label join")
-            a1, a2 = _write_of(st.body[1]), _write_of(st.orelse[0])
-            _need(a1 is not None and a2 is not None, "writer: class label writes")
-            items.append(("GClassLabel", _parts(a1, "writer header")))
-            items.append(("GNoClassLabel", _parts(a2, "writer header")))
-            continue
-        raise Unsupported("writer: unknown guard `%s`" % test)
-    _need(seen_loop and closed, "writer: no case loop / close")
-    return items, facts
+    for v in values:
+        present = [i for i, (_c, before) in enumerate(seqs) if v in before]
+        _need(all(seqs[i][1].count(v) == 1 for i in present), "writer: a header line written twice")
+        guard = None
+        if len(present) == len(seqs):
+            guard = "GAlways"
+        else:
+            for ga, name in GUARD_ATOMS.items():
+                if present == [i for i, (c, _b) in enumerate(seqs) if ga in c]:
+                    guard = name
+        _need(guard is not None, "writer: unknown guard of a header line")
+        longest = max(present, key=lambda i: len(seqs[i][1]))
+        items.append((seqs[longest][1].index(v), 0 if guard != "GNoClassLabel" else 1, guard,
+                      _header_parts(v, "writer header")))
+    items.sort(key=lambda t: t[:2])
+    # the comment block, if any, comes before every header line: on every path the first write that
+    # is not a header line precedes the first header line
+    for conds, effects, _ex, _sets in ok:
+        kinds = ["h" if _is_header_value(e[1][3][0]) else "c" for e in effects
+                 if e[0] == "CALL" and e[1][:2] == ("M", "write") and len(e[1][3]) == 1]
+        _need("c" not in kinds[kinds.index("h"):] if "h" in kinds else True,
+              "writer: comment block is not first")
+    return [(g, parts) for _i, _k, g, parts in items], _writer_loop_facts(mod, fn)
 
 
 def _splits(node):
@@ -239,7 +297,27 @@ def _splits(node):
     return out
 
 
-def _parser(fn, frags):
+def _line_loop(nf):
+    """the body of the one loop over the lines of the file (the same on every path of the function)"""
+    bodies = set()
+    for _c, effects, _ex, _sets in nf:
+        loops = [e for e in effects if e[0] == "FOREACH"]
+        if loops:
+            bodies.add(loops[0][3])
+    _need(len(bodies) == 1, "parser: the loop over the lines differs between paths")
+    return next(iter(bodies))
+
+
+def _values(path):
+    """every value a path mentions: conditions, effects, new state"""
+    conds, effects, ex, sets = path
+    return (tuple(c[2] for c in conds), effects, ex, sets)
+
+
+def _parser(fn, frags, mod):
+    """tags of the startswith chain (in order), separators, missing-value marker: read off the path
+    normal form of the whole parser (the branch `timestamps` true is outside the model and is not
+    explored); the normal form itself is the pin of everything else the hand model describes"""
     facts = {}
     args = fn.args
     names = [a.arg for a in args.args]
@@ -247,67 +325,62 @@ def _parser(fn, frags):
     d = args.defaults[names.index("replace_missing_vals_with") - (len(names) - len(args.defaults))]
     _need(isinstance(d, ast.Constant) and isinstance(d.value, str), "parser: missing default")
     facts["parser_missing_default"] = d.value
-    withs = [s for s in _body(fn) if isinstance(s, ast.With)]
-    _need(len(withs) == 1 and len(withs[0].body) == 1 and isinstance(withs[0].body[0], ast.For),
-          "parser: with/for shape")
-    frags["parser.open"] = ast.unparse(withs[0].items[0])
-    loop = withs[0].body[0]
-    _need(ast.unparse(loop.target) == "line" and ast.unparse(loop.iter) == "file", "parser: loop")
-    _need(len(loop.body) == 3, "parser: loop body shape")
-    _need(ast.unparse(loop.body[0]) == "line = line.strip().lower()", "parser: normalisation")
-    _need(ast.unparse(loop.body[2]) == "line_num += 1", "parser: line counter")
-    top = loop.body[1]
-    _need(isinstance(top, ast.If) and ast.unparse(top.test) == "line" and not top.orelse
-          and len(top.body) == 1 and isinstance(top.body[0], ast.If), "parser: `if line:` shape")
-    node = top.body[0]
-    tags = []
-    while True:
-        t = node.test
-        if (isinstance(t, ast.Call) and isinstance(t.func, ast.Attribute)
-                and t.func.attr == "startswith" and ast.unparse(t.func.value) == "line"
-                and len(t.args) == 1 and isinstance(t.args[0], ast.Constant)
-                and isinstance(t.args[0].value, str)):
-            tag = t.args[0].value
-            _need('"' not in tag and "\n" not in tag, "parser: tag literal")
-            tags.append(tag)
-            frags["parser.branch[%s]" % tag] = "\n".join(ast.unparse(s) for s in node.body)
-            _need(len(node.orelse) == 1 and isinstance(node.orelse[0], ast.If),
-                  "parser: startswith chain does not continue with elif")
-            node = node.orelse[0]
-            continue
-        break
-    _need(ast.unparse(node.test) == "data_started" and not node.orelse,
-          "parser: chain does not end with `elif data_started:` without else")
-    body = node.body
-    _need(len(body) == 3 and isinstance(body[0], ast.If) and isinstance(body[2], ast.If)
-          and ast.unparse(body[2].test) == "timestamps", "parser: data branch shape")
-    frags["parser.metadata_check"] = ast.unparse(body[0])
-    rep = body[1]
-    _need(isinstance(rep, ast.Assign) and ast.unparse(rep.targets[0]) == "line"
-          and isinstance(rep.value, ast.Call) and ast.unparse(rep.value.func) == "line.replace"
-          and len(rep.value.args) == 2 and isinstance(rep.value.args[0], ast.Constant)
-          and ast.unparse(rep.value.args[1]) == "replace_missing_vals_with", "parser: replace")
-    facts["parser_missing"] = rep.value.args[0].value
-    frags["parser.untimestamped_case"] = "\n".join(ast.unparse(s) for s in body[2].orelse)
-    sp = _splits(ast.Module(body=body[2].orelse, type_ignores=[]))
-    _need(sp.get("dimensions") and len(sp["dimensions"]) == 1, "parser: dimension split")
-    _need(sp.get("data_series") and len(sp["data_series"]) == 1, "parser: value split")
-    facts["parser_dim_sep"] = next(iter(sp["dimensions"]))
-    facts["parser_value_sep"] = next(iter(sp["data_series"]))
-    # header tokens are split on one literal everywhere
-    hs = set()
-    n = top.body[0]
-    for _ in tags:
-        for v in _splits(ast.Module(body=n.body, type_ignores=[])).get("tokens", set()):
-            hs.add(v)
-        n = n.orelse[0]
-    _need(len(hs) == 1, "parser: header token separator")
-    facts["parser_token_sep"] = next(iter(hs))
-    rest = [s for s in _body(fn) if not isinstance(s, ast.With)]
-    tail = [s for s in rest if isinstance(s, ast.If)]
-    _need(len(tail) == 1 and ast.unparse(tail[0].test) == "line_num", "parser: final section")
-    frags["parser.finish"] = ast.unparse(tail[0])
-    frags["parser.init"] = "\n".join(ast.unparse(s) for s in rest if not isinstance(s, ast.If))
+    nf = _nf_tuple(mod, fn, assume_false=("timestamps",))
+    frags["nf.load_from_tsfile_to_dataframe"] = "sha256:" + hashlib.sha256(
+        pathnorm_c18._fmt(nf).encode()).hexdigest()
+    body = _line_loop(nf)
+
+    def sw(c):
+        return c[2][:2] == ("M", "startswith") and len(c[2][3]) == 1 and c[2][3][0][0] == "K"
+    # the chain: the path on which tag t matches has decided `not startswith(u)` for every tag u
+    # that is tested before t
+    rank, header_paths, data_paths = {}, [], []
+    for path in body:
+        pos = [c for c in path[0] if sw(c) and c[1]]
+        neg = [c for c in path[0] if sw(c) and not c[1]]
+        _need(len(pos) <= 1, "parser: two tags match one line")
+        if pos:
+            tag = _lit(pos[0][2][3][0])
+            _need(isinstance(tag, str) and '"' not in tag and "\n" not in tag, "parser: tag literal")
+            _need(rank.setdefault(tag, len(neg)) == len(neg), "parser: tag chain is not a chain")
+            header_paths.append(path)
+        elif neg:
+            data_paths.append(path)
+    tags = sorted(rank, key=lambda t: rank[t])
+    _need(tags and sorted(rank.values()) == list(range(len(tags))), "parser: tag chain")
+    # every line is stripped and lower-cased before anything looks at it
+    for path in header_paths:
+        for c in path[0]:
+            if sw(c):
+                recv = c[2][2]
+                _need(recv[:2] == ("M", "lower") and recv[2][:2] == ("M", "strip"),
+                      "parser: normalisation")
+    # data lines: only once @data has been seen (a line matching no tag before that falls through)
+    def started(path):
+        return any(c[1] and c[2][0] == "LS" and c[2][-1] == "data_started" for c in path[0])
+    live = [p for p in data_paths if p[2] == ("next",) and started(p)]
+    _need(live, "parser: no data branch")
+    for path in data_paths:
+        if not started(path):
+            _need(not path[1], "parser: data read before @data")
+    seps_tok = {_lit(v[3][0]) for p in header_paths
+                for v in _sub(_values(p), lambda v: v[:2] == ("M", "split") and len(v[3]) == 1
+                              and v[3][0][0] == "K")}
+    facts["parser_token_sep"] = _one(seps_tok, "parser: header token separator")
+    dim, val, miss = set(), set(), set()
+    for path in live:
+        for depth, _c, e in _effects((path,)):
+            for v in _sub(e, lambda v: v[:2] == ("M", "split") and len(v[3]) == 1
+                          and v[3][0][0] == "K"):
+                # a dimension is what the (missing-value-replaced) line is split into; a value what a
+                # stripped dimension is split into
+                (dim if v[2][:2] == ("M", "replace") else val).add(_lit(v[3][0]))
+        for v in _sub(_values(path), lambda v: v[:2] == ("M", "replace") and len(v[3]) == 2
+                      and v[3][1] == ("S", "replace_missing_vals_with")):
+            miss.add(_lit(v[3][0]))
+    facts["parser_dim_sep"] = _one(dim, "parser: dimension split")
+    facts["parser_value_sep"] = _one(val, "parser: value split")
+    facts["parser_missing"] = _one(miss, "parser: replace")
     return tags, facts
 
 
@@ -326,9 +399,9 @@ def _arff(fn, frags, mod):
     # the `<literal> in <line>` tests of the loop
     lits = set()
     for _d, conds, _e in _effects(nf):
-        for at, _pol in conds:
-            if at.startswith("('CMP', 'In', ('K', "):
-                lits.add(ast.literal_eval(ast.literal_eval(at)[2][1]))
+        for _at, _pol, atom in conds:
+            if atom[:2] == ("CMP", "In") and atom[2][0] == "K":
+                lits.add(_lit(atom[2]))
     _need(sorted(lits) == ["@attribute", "@data", "relational"], "arff: `in` tests %s" % sorted(lits))
     facts["arff_data_tag"] = "@data"
     # the separator of a univariate data line: what the appended series are split on
@@ -354,16 +427,32 @@ def _tsv(fn, frags, mod):
 
 
 def _load_dataset(fn, frags, mod):
-    # the whole body (which file for which split, concat appending to the accumulated frame, the two
-    # return forms) is covered by the normal-form pin; the split order is carried into Gallina
-    frags["nf._load_dataset"] = _nf(mod, fn)
-    fors = [n for n in ast.walk(fn) if isinstance(n, ast.For)]
-    _need(len(fors) == 1 and isinstance(fors[0].target, ast.Name)
-          and isinstance(fors[0].iter, (ast.Tuple, ast.List))
-          and all(isinstance(e, ast.Constant) and isinstance(e.value, str)
-                  for e in fors[0].iter.elts), "_load_dataset: loop over the partitions")
-    order = [e.value for e in fors[0].iter.elts]
-    return {"split_order": order}
+    """the whole body (which file for which split, concat appending to the accumulated frame, the two
+    return forms) is covered by the normal-form pin; carried into Gallina: the ORDER in which the
+    partitions are read for split=None, from the files that are loaded on that path
+    (`<name>_<PARTITION>.ts`, whatever the loop variable or the spelling of the literal is)"""
+    nf = _nf_tuple(mod, fn)
+    frags["nf._load_dataset"] = "sha256:" + hashlib.sha256(pathnorm_c18._fmt(nf).encode()).hexdigest()
+    both = [p for p in nf if p[2][0] == "return"
+            and any(c[1] and c[2] == ("CMP", "Is", ("S", "split"), ("K", "None")) for c in p[0])]
+    _need(both, "_load_dataset: no path for split=None")
+    orders = set()
+    for path in both:
+        order = []
+        for v in _sub(_values(path), lambda v: v[0] == "C"
+                      and v[1] == ("S", "load_from_tsfile_to_dataframe") and len(v[2]) == 1):
+            fname = v[2][0][3][-1] if v[2][0][:2] == ("M", "join") else None
+            _need(fname is not None and fname[:3] == ("BIN", "Add", ("S", "name"))
+                  and fname[3][0] == "K", "_load_dataset: file name of a partition")
+            lit = _lit(fname[3])
+            _need(isinstance(lit, str) and lit.startswith("_") and lit.endswith(".ts"),
+                  "_load_dataset: file name of a partition")
+            part = lit[1:-3].lower()
+            if part not in order:
+                order.append(part)
+        orders.add(tuple(order))
+    _need(len(orders) == 1, "_load_dataset: partition order differs between paths")
+    return {"split_order": list(next(iter(orders)))}
 
 
 def _loaders(mod, frags):
@@ -422,7 +511,7 @@ def fragments_and_facts(repo):
         base_mod = ast.parse(f.read())
     frags = {}
     items, wf = _writer(_func(io_mod, "write_dataframe_to_tsfile"), frags, io_mod)
-    tags, pf = _parser(_func(io_mod, "load_from_tsfile_to_dataframe"), frags)
+    tags, pf = _parser(_func(io_mod, "load_from_tsfile_to_dataframe"), frags, io_mod)
     af = _arff(_func(io_mod, "load_from_arff_to_dataframe"), frags, io_mod)
     tf = _tsv(_func(io_mod, "load_from_ucr_tsv_to_dataframe"), frags, io_mod)
     lf = _load_dataset(_func(base_mod, "_load_dataset"), frags, base_mod)
